@@ -245,7 +245,8 @@ std::string observeBasic(const TControl& c) {
 	for (int i = 0; i < STATE_COUNT; ++i) {
 		if (c.isActive(static_cast<hfsm2::StateID>(i)))    a |= 1ull << i;
 		if (c.isResumable(static_cast<hfsm2::StateID>(i))) r |= 1ull << i;
-		const auto sub = c.activeSubState(static_cast<hfsm2::StateID>(i));
+		// activeSubState() is only meaningful (and only in contract) for region heads
+		const auto sub = STATES[i].width > 0 ? c.activeSubState(static_cast<hfsm2::StateID>(i)) : hfsm2::INVALID_PRONG;
 		if (i) subs += ",";
 		subs += (sub == hfsm2::INVALID_PRONG ? std::string("-") : std::to_string(static_cast<int>(sub)));
 	}
